@@ -96,8 +96,9 @@ func inLayerEdges(upper, lower *graph.Layer) []*graph.Edge {
 	return es
 }
 
-func bit(a, b int) uint64 {
-	return (1 << a) | (1 << b)
+// returns the two layer indices as an unordered pair; a bit mask (1<<a | 1<<b) would map all layers above 63 to zero
+func bit(a, b int) [2]int {
+	return [2]int{min(a, b), max(a, b)}
 }
 
 // returns the layers as a tuple ordered by number of nodes
